@@ -2,7 +2,10 @@
 """Regenerates MANIFEST.json from drivers/meta.json (single source)."""
 import json, os
 V = os.path.dirname(os.path.dirname(os.path.abspath(__file__)))
-meta = json.load(open(os.path.join(V, "drivers", "meta.json")))
+meta = {}
+for f in sorted(os.listdir(os.path.join(V, "drivers", "meta"))):
+    if f.endswith(".json"):
+        meta[f[:-5]] = json.load(open(os.path.join(V, "drivers", "meta", f)))
 props = [json.loads(l) for l in open(os.path.join(V, "properties.jsonl"))]
 checks, na = [], []
 for p in props:
